@@ -352,6 +352,51 @@ func gen(seed int64, n int, tier string) []interface{} {
 			}
 			m.Body = append(m.Body[:pos], append([]javagen.Stmt{st}, m.Body[pos:]...)...)
 		}
+		// a twin: a class of the same simple name in another package that declares the same method, called through an
+		// import of the twin from a third class - those calls belong to the twin and must stay (the model tells them apart
+		// by package only)
+		if r.Intn(3) == 0 {
+			var twin javagen.File
+			b, _ := json.Marshal(*tf)
+			json.Unmarshal(b, &twin)
+			twin.Id = tf.Id + "twin"
+			twin.Pkg = "twin." + tf.Pkg
+			if tf.Pkg == "" {
+				twin.Pkg = "twin"
+			}
+			for ui := range p.Files {
+				u := &p.Files[ui]
+				if ui == t.fi || !javaproj.Selected(*u) || u.Unit.Kind != "class" || u.Pkg == tf.Pkg {
+					continue
+				}
+				clash := false
+				for _, im := range u.Imports {
+					if im.Name == tf.Unit.Name || im.Name == "*" {
+						clash = true
+					}
+				}
+				if clash {
+					continue
+				}
+				for j := range u.Unit.Members {
+					m := &u.Unit.Members[j]
+					if m.Kind != "method" {
+						continue
+					}
+					m.Params = append(m.Params, javagen.Param{Type: tf.Unit.Name, Name: "tw"})
+					e := callOn("var", "tw", old)
+					if r.Intn(2) == 0 {
+						e = callOn("none", "", "log", callOn("var", "tw", old), callOn("var", "tw", old))
+					}
+					m.Body = append([]javagen.Stmt{{K: "expr", E: &e}}, m.Body...)
+					u.Imports = append(u.Imports, javagen.Import{Pkg: twin.Pkg, Name: tf.Unit.Name})
+					p.Files = append(p.Files, twin)
+					tf = &p.Files[t.fi]
+					break
+				}
+				break
+			}
+		}
 		newName := []string{"z", "renamedWithAMuchLongerIdentifier", old + "2", strings.ToUpper(old[:1]) + old[1:], "ab"}[r.Intn(5)]
 		if len(newName) == len(old) && newName == old {
 			newName = old + "X"
